@@ -203,4 +203,77 @@ theorem count_filter_21 : ∀ ts : List Nat, distinctB ts = true → (ts.filter 
     · have := ih h.2
       simp [ht, this]
 
+/-! ### the stored padding state is irrelevant under a policy -/
+
+theorem apply_stateless (pol : PadPolicy) (hp : pol ≠ .none) (l : Nat) (c1 c2 : Nat × Bool) :
+    pol.apply l c1 = pol.apply l c2 := by
+  cases pol <;> first | exact absurd rfl hp | rfl
+
+theorem setPad_isPadding (c : Nat × Bool) (e : Ext) : isPadding (setPad c e) = isPadding e := by
+  cases e <;> rfl
+
+theorem setPad_len_notPadding (c : Nat × Bool) (e : Ext) (h : isPadding e = false) : setPad c e = e := by
+  cases e <;> first | rfl | simp [isPadding] at h
+
+theorem paddingCount_setPad (c : Nat × Bool) : ∀ xs : List Ext, paddingCount (xs.map (setPad c)) = paddingCount xs := by
+  intro xs
+  induction xs with
+  | nil => rfl
+  | cons e r ih => simp [paddingCount, setPad_isPadding, ih]
+
+theorem extsLenNoPad_setPad (c : Nat × Bool) : ∀ xs : List Ext, extsLenNoPad (xs.map (setPad c)) = extsLenNoPad xs := by
+  intro xs
+  induction xs with
+  | nil => rfl
+  | cons e r ih =>
+    by_cases hp : isPadding e = true
+    · simp [extsLenNoPad, setPad_isPadding, hp, ih]
+    · have hp' : isPadding e = false := by simpa using hp
+      simp [extsLenNoPad, hp', setPad_len_notPadding c e hp', ih]
+
+theorem firstPadding_setPad (c : Nat × Bool) : ∀ xs : List Ext,
+    firstPadding (xs.map (setPad c)) = (firstPadding xs).map fun _ => c := by
+  intro xs
+  induction xs with
+  | nil => rfl
+  | cons e r ih =>
+    by_cases hp : isPadding e = true
+    · cases e <;> first | rfl | simp [isPadding] at hp
+    · have hp' : isPadding e = false := by simpa using hp
+      have h1 : firstPadding (e :: r) = firstPadding r := by
+        cases e <;> first | rfl | simp [isPadding] at hp'
+      have h2 : firstPadding ((e :: r).map (setPad c)) = firstPadding (r.map (setPad c)) := by
+        cases e <;> first | rfl | simp [isPadding] at hp'
+      rw [h1, h2, ih]
+
+theorem updatePad_setPad (pol : PadPolicy) (hp : pol ≠ .none) (l : Nat) (c : Nat × Bool) (e : Ext) :
+    updatePad pol l (setPad c e) = updatePad pol l e := by
+  cases e <;> first | rfl | skip
+  rename_i n w
+  simp only [setPad, updatePad]
+  rw [apply_stateless pol hp l (c.1, c.2) (n, w)]
+
+/-- **the stored `(PaddingLen, WillPad)` has no influence on a marshal under a policy**: whatever an
+earlier marshal (or another connection sharing the spec object) left in the padding extension. -/
+theorem marshal_setPad (f : HelloFields) (pol : PadPolicy) (hp : pol ≠ .none) (xs : List Ext) (c1 c2 : Nat × Bool) :
+    marshalNoECH f pol (xs.map (setPad c1)) = marshalNoECH f pol (xs.map (setPad c2)) := by
+  have hu : ∀ c, unpaddedLen f (xs.map (setPad c)) = unpaddedLen f xs := by
+    intro c; simp [unpaddedLen, extsLenNoPad_setPad]
+  have hel : ∀ c, extensionsLen f pol (xs.map (setPad c)) = extensionsLen f pol (xs.map (setPad c2)) := by
+    intro c
+    simp only [extensionsLen, hu, extsLenNoPad_setPad, firstPadding_setPad]
+    cases firstPadding xs with
+    | none => rfl
+    | some cur => simp only [Option.map_some]; rw [apply_stateless pol hp _ c c2]
+  have hhl : helloLen f pol (xs.map (setPad c1)) = helloLen f pol (xs.map (setPad c2)) := by
+    simp only [helloLen, hel c1, List.isEmpty_map]
+  have hmap : ∀ c, (xs.map (setPad c)).map (updatePad pol (unpaddedLen f xs)) = xs.map (updatePad pol (unpaddedLen f xs)) := by
+    intro c
+    rw [List.map_map]
+    apply List.map_congr_left
+    intro e _
+    exact updatePad_setPad pol hp _ c e
+  unfold marshalNoECH
+  simp only [paddingCount_setPad, hel c1, hhl, hu, hmap, List.isEmpty_map]
+
 end Hello
